@@ -30,47 +30,9 @@ class C02(InvProp):
         if pumps and rng.chance(0.3):
             gen.add_simple_time_controls(rng, scn, 1, targets=pumps)
         e1.add_faults(rng, scn, p_pause=0.2)
-        heads = [l for l in pumps if l.get('kind') == 'HEAD']
-        if heads and rng.chance(0.3):
-            # a run / edit / rerun history: after the first run the points of a pump curve are replaced, the model is reset and run again
-            l = rng.pick(heads)
-            pts = scn['curves'][l['curve']]['points']
-            f = rng.pick([0.7, 0.85, 1.2, 1.4])
-            scn['edit_rerun'] = {'curve': l['curve'], 'points': [[p_[0], round(p_[1] * f, 3)] for p_ in pts]}
+        if rng.chance(0.3):
+            scn['edits'] = e1.gen_edits(rng, scn)
         return scn
-
-    def examine(self, scn, tier='quick'):
-        v = super(C02, self).examine(scn, tier)
-        er = scn.get('edit_rerun')
-        if not er or v['outcome'] != 'ok' or er['curve'] not in scn.get('curves', {}):
-            return v
-        from .. import runsim, world
-        from .base import bump
-        c = v['counters']
-        s1 = world.clone(scn)
-        s1['faults'] = []
-        wn = world.build(s1)
-        first = runsim.run_world(s1, wn=wn)
-        if first.exc is not None or not first.parts or first.parts[-1].error_code is not None:
-            return v
-        wn.get_curve(er['curve']).points = [tuple(p_) for p_ in er['points']]
-        wn.reset_initial_values()
-        s2 = world.clone(s1)
-        s2['curves'][er['curve']]['points'] = [list(p_) for p_ in er['points']]
-        second = runsim.run_world(s2, wn=wn)
-        second.tables = e1.concat(second.parts) if second.parts else None
-        bump(c, 'fired.rerun_after_curve_edit')
-        v['runs'] = v.get('runs', 1) + 2
-        if second.exc is not None or second.tables is None or second.tables.error_code is not None:
-            bump(c, 'c02.rerun_after_edit_nonconverged')
-            return v
-        viol = inv.c02(s2, second.tables, c, hw_approx=s2['run'].get('hw_approx', 'default'), rn=inv.rnorms(second))
-        for x in viol:
-            x['oracle'] = x['oracle'] + '.after_curve_edit'
-        if viol:
-            v['outcome'] = 'violation'
-            v['violations'] = viol
-        return v
 
     def oracle(self, scn, out, c):
         return inv.c02(scn, out.tables, c, hw_approx=scn['run'].get('hw_approx', 'default'), rn=inv.rnorms(out))
